@@ -445,3 +445,15 @@ Proof.
   unfold Rltb. destruct (Rlt_dec (Rabs s) eps); [lra|].
   destruct q1 as [a1 b1 c1 d1]. destruct q2 as [a2 b2 c2' d2]. split; apply quat_eq; unf; field; exact Hs0.
 Qed.
+
+(* reb_simulation_irotate acts on ALL N particles, the variational ones (stored behind the real ones) included, by the same linear map:
+   the rotated variation is the variation of the rotated coordinates *)
+Theorem irotate_all_particles : forall q (real var : list (vecR * vecR)),
+  sim_rotate RNum q (real ++ var) = sim_rotate RNum q real ++ sim_rotate RNum q var /\
+  length (sim_rotate RNum q (real ++ var)) = (length real + length var)%nat /\
+  (forall i d, nth i (sim_rotate RNum q (real ++ var)) (rotate_pv RNum q d) = rotate_pv RNum q (nth i (real ++ var) d)) /\
+  (forall x dx eps, Rrot (v_add RNum x (v_mul RNum dx eps)) q = v_add RNum (Rrot x q) (v_mul RNum (Rrot dx q) eps)).
+Proof.
+  intros q real var. unfold sim_rotate. split; [apply map_app|]. split; [rewrite map_length, app_length; reflexivity|].
+  split; [intros i d; apply map_nth | intros; apply rotate_linear].
+Qed.
